@@ -1382,7 +1382,7 @@ seq_t dtw_warping_paths_ndim(seq_t *wps,
         seq_t mir_value = INFINITY;
         idx_t mir_rel = 0;
         seq_t mic_value = INFINITY;
-        idx_t mic = 0;
+        idx_t mic = l2;  // last column: nothing to mark when no finite value is found
         // Find smallest value in last column
         if (settings->psi_1e != 0) {
             wpsi = final_wpsi;
@@ -1423,12 +1423,9 @@ seq_t dtw_warping_paths_ndim(seq_t *wps,
         } else {
             // last row has smallest value
             if (psi_neg) {
-                for (ci=p.width - (l2 - mic); ci<p.width; ci++) {
-                    wpsi = l1*p.width + ci;
-                    if (p.window != 0 && p.window != l2) {
-                        wpsi--;
-                    }
-                    wps[wpsi] = -1;
+                // Columns after the smallest value; final_wpsi is the last column of the last row
+                for (ci=mic + 1; ci<l2 + 1; ci++) {
+                    wps[final_wpsi - (l2 - ci)] = -1;
                 }
             }
             rvalue =  mic_value;
@@ -1785,7 +1782,7 @@ seq_t dtw_warping_paths_ndim_euclidean(seq_t *wps,
         seq_t mir_value = INFINITY;
         idx_t mir_rel = 0;
         seq_t mic_value = INFINITY;
-        idx_t mic = 0;
+        idx_t mic = l2;  // last column: nothing to mark when no finite value is found
         // Find smallest value in last column
         if (settings->psi_1e != 0) {
             wpsi = final_wpsi;
@@ -1826,12 +1823,9 @@ seq_t dtw_warping_paths_ndim_euclidean(seq_t *wps,
         } else {
             // last row has smallest value
             if (psi_neg) {
-                for (ci=p.width - (l2 - mic); ci<p.width; ci++) {
-                    wpsi = l1*p.width + ci;
-                    if (p.window != 0 && p.window != l2) {
-                        wpsi--;
-                    }
-                    wps[wpsi] = -1;
+                // Columns after the smallest value; final_wpsi is the last column of the last row
+                for (ci=mic + 1; ci<l2 + 1; ci++) {
+                    wps[final_wpsi - (l2 - ci)] = -1;
                 }
             }
             rvalue =  mic_value;
